@@ -1,6 +1,6 @@
 From PL Require Export Data.ArithImpl.
 From Coq Require Import String ZifyBool.
-Open Scope Z_scope.
+Local Open Scope Z_scope.
 
 
 (* every arithmetic native named by the property exists in the source *)
